@@ -27,7 +27,7 @@ import vcheck
 
 LEVEL = "proof"
 
-MODEL_FILES = ["Hlsl/Syntax.v", "Hlsl/Ops.v", "Hlsl/Sem.v", "Hlsl/Decode.v", "Hlsl/Catalogue.v", "Hlsl/CatalogueProofs.v",
+MODEL_FILES = ["Hlsl/Syntax.v", "Hlsl/Ops.v", "Hlsl/Sem.v", "Hlsl/Decode.v", "Hlsl/Catalogue.v", "Hlsl/FloatConv.v", "Hlsl/CatalogueProofs.v",
                "Hlsl/OpTable.v", "Gen/HlslOpTable.v", "IR/Values.v", "IR/Sem.v", "Base/Bits32.v", "Base/F32.v"]
 
 
